@@ -161,8 +161,21 @@ def _cases(draw):
             if again is not None:
                 fields.append(again)
                 d.tag("builder.same_field_twice")
+        reuse = {}
+        if fields and history and d.bool(0.45):
+            # the SAME builder object as in an earlier operation, at a drawn (usually different) top-level position
+            cands = [(s, j) for s, h in enumerate(history) if h["kind"] == root_kind for j, f in enumerate(h["fields"])
+                     if (f["alias"] or f["name"]) not in {g["alias"] or g["name"] for g in fields}]
+            if cands:
+                s0, j0 = d.choice(cands)
+                pos = d.int(0, len(fields))
+                fields.insert(pos, json.loads(json.dumps(history[s0]["fields"][j0])))
+                reuse[str(pos)] = [s0, j0]
+                d.tag("builder.object_reuse")
+                if pos != j0:
+                    d.tag("builder.object_reuse_other_index")
         if fields:
-            history.append({"kind": root_kind, "name": f"Op{step}", "fields": fields})
+            history.append({"kind": root_kind, "name": f"Op{step}", "fields": fields, "reuse": reuse})
     if not history:
         return {"rejected": "no buildable operation"}
     if len(history) >= 2:
@@ -220,9 +233,19 @@ def realise(pkg, mods, parent_cls, node):
     return obj
 
 
-def send(case, pkg, mods, client, transport, op):
+def send(case, pkg, mods, client, transport, op, cache=None, step=None):
+    """cache: builder objects of earlier operations of this process, keyed (history index, field index); an intent
+    marked as reuse takes the cached OBJECT (a fresh process has none and builds the same expression anew)"""
     root_cls = mods["custom_queries"].Query if op["kind"] == "query" else mods["custom_mutations"].Mutation
-    fields = [realise(pkg, mods, root_cls, f) for f in op["fields"]]
+    fields = []
+    for j, f in enumerate(op["fields"]):
+        src = (op.get("reuse") or {}).get(str(j))
+        obj = cache.get(tuple(src)) if (cache is not None and src) else None
+        if obj is None:
+            obj = realise(pkg, mods, root_cls, f)
+        if cache is not None:
+            cache[(step, j)] = obj
+        fields.append(obj)
     method = getattr(client, op["kind"])
     n0 = len(transport.requests)
     _v, exc = e2e.run_call(case, method, {}) if False else _call(method, fields, op["name"])
@@ -402,10 +425,11 @@ def run_case(case, scratch):
     except BaseException as exc:  # noqa: BLE001
         return {"failures": [{"clause": "import", "sig": type(exc).__name__, "msg": repr(exc)[:300]}], "units": 1, "features": feats}
     nt_case = bool(set(feats) & {"builder.nested_arg", "builder.list_arg", "builder.alias", "builder.inline_fragment"})
+    cache = {}
     for i, op in enumerate(case["history"]):
         units += 1
         try:
-            req, exc = send(case, pkg, mods, client, transport, op)
+            req, exc = send(case, pkg, mods, client, transport, op, cache, i)
         except LookupError as exc:
             failures.append({"clause": "builder_api", "sig": "", "msg": f"{op['name']}: {exc}"[:300]})
             continue
